@@ -5,6 +5,7 @@ Everything the oracles know comes from the *accepted calls* observed by the reco
 log), never from the object's own flags.
 """
 import collections
+import decimal
 import itertools
 import random
 import sys
@@ -264,6 +265,23 @@ class Monitor(object):
         mon = self
 
         def wrapper(comp, *a, **k):
+            # every fifth call runs under a decimal context an embedding application may have set (see attach.HOSTILE; the
+            # ones with traps are left out here because the float-height shards compare Decimal with float by design)
+            attach.AMB['n'] += 1
+            hc = attach.hostile_context(attach.AMB['n']) if attach.AMB['current'] is None and not mon.busy else None
+            if hc is not None and hc[1].traps[decimal.FloatOperation]:
+                hc = None
+            if hc is None:
+                return judged(comp, a, k)
+            attach.AMB['current'] = hc[0]
+            mon.ctx.counters['ambient.decimal-context-calls'] += 1
+            try:
+                with decimal.localcontext(hc[1]):
+                    return judged(comp, a, k, True)
+            finally:
+                attach.AMB['current'] = None
+
+        def judged(comp, a, k, hostile=False):
             pre = mon.before(comp, name, a, k)
             try:
                 r = raw(comp, *a, **k)
